@@ -980,11 +980,19 @@ def c17(run):
 def c18(run):
     run.rec_leg("link", ["link"], verdict=["panic", "rt-txt", "unknown-event"])
     run.rec_leg("asm_rt", ["rt", "fmt=txt"], verdict=["panic", "rt-txt", "unknown-event"])
+    run.mc_leg("mc_txtformat", "MC_TxtFormat", "MC_TxtFormat.cfg", workers=8, timeout=3000)
+    run.rec_leg("fmt", ["fmt"], spec="TV_Fmt", cfg="TV_Fmt.cfg", verdict=["panic", "txt-roundtrip", "unknown-event"])
     return run.finish(
         rule="as C17 through TextFormat; the single-program leg uses sources with quotes, backslashes, tabs, CRLF, control "
              "and non-ASCII characters, ' | ' inside comments and strings, '=' and '#' at line starts, empty and "
-             "whitespace-only lines",
-        level_note="the text grammar itself is not transcribed (DESIGN.md section 8)")
+             "whitespace-only lines.  The text format is the specification TxtFormat: TxtWrite gives the exact text of an "
+             "object (sorted tables, column widths in characters, char::escape_default of the source cells) and TxtRead reads "
+             "texts of that shape; MC_TxtFormat proves the round trip for an object universe with sources containing quotes, "
+             "backslashes, TAB, CR LF, control and non-ASCII characters, ' | ' and lines starting with '#', '=' and '.'; the "
+             "fmt leg requires the real writer's text of every assembled and linked object to equal TxtWrite byte for byte, "
+             "TxtRead to read it back as the object, and the real reader to give the object back (==)",
+        level_note="the reader is specified on the writer's shape only (what the real reader does with other texts - Unicode "
+                   "trimming, signs, other escapes - is not transcribed; C19 requires it not to panic)")
 
 
 @check("C19")
